@@ -324,8 +324,17 @@ func (g *Gen) mutate(t Tree) {
 			g.logf("chmod %s %s", p, e.Mode)
 		case k < 90: // symlink whose NAME matches the usual selections
 			p := []string{"ln.dat", "a/ln.dat", "link1", "c d/ln.png"}[g.r.Intn(4)]
-			t[p] = Ent{Mode: "120000", Sha: g.blob([]byte([]string{"d1.dat", "../big.dat", "a/b/d2.dat"}[g.r.Intn(3)]))}
-			g.logf("symlink %s", p)
+			target := []string{"d1.dat", "../big.dat", "a/b/d2.dat"}[g.r.Intn(3)]
+			if g.r.Intn(3) == 0 {
+				// a link committed as a plain file holding its target (core.symlinks=false checkout);
+				// a later symlink operation on the same path yields a 100644 -> 120000 typechange
+				// with an unchanged blob
+				g.put(t, p, []byte(target), "100644")
+				g.logf("link-as-plain-file %s -> %s", p, target)
+			} else {
+				t[p] = Ent{Mode: "120000", Sha: g.blob([]byte(target))}
+				g.logf("symlink %s", p)
+			}
 		case k < 95: // empty file with a selectable name
 			p := genDirs[g.r.Intn(len(genDirs))] + []string{"empty.dat", "empty.png"}[g.r.Intn(2)]
 			g.put(t, p, []byte{}, "100644")
@@ -451,7 +460,22 @@ func (g *Gen) build() {
 	if g.opt.Gitlink {
 		t["sub"] = Ent{Mode: "160000", Sha: "1234567890abcdef1234567890abcdef12345678"}
 	}
+	// a link first committed as a plain file (core.symlinks=false checkout) and turned into a real
+	// symlink by the next commit: 100644 -> 120000 typechange with an unchanged blob, at a path the
+	// usual selections match
+	typechange := g.r.Intn(2) == 0
+	if typechange {
+		g.put(t, "ln.dat", []byte("d1.dat"), "100644")
+	}
 	g.setBranch("main", g.commit(t, nil, "root"))
+	if typechange {
+		t2 := t.clone()
+		e := t2["ln.dat"]
+		e.Mode = "120000"
+		t2["ln.dat"] = e
+		g.logf("typechange ln.dat 100644 -> 120000 (same blob)")
+		g.setBranch("main", g.commit(t2, []int{g.Br["main"]}))
+	}
 	cur := "main"
 	names := []string{"br1", "feature/x", "br3", "topic-4"}
 	for n := 1; n < g.opt.Commits; n++ {
